@@ -11,6 +11,8 @@ import Gmars.Proofs.AsmEqu
 import Gmars.Proofs.AsmComposeForBytes
 import Gmars.Proofs.AsmComposeEquCase
 import Gmars.Proofs.AsmTailCompose
+import Gmars.Proofs.AsmComposeAll
+import Gmars.Proofs.AsmComposeAllExample
 import Gmars.Proofs.AsmTailExample
 import Gmars.Proofs.AsmComposeEquExample
 import Gmars.Proofs.AsmComposeForExample
@@ -208,12 +210,43 @@ theorem assemble_meaning_for (cfg : Config) (sc : Spec.Cfg) (fp : FProg)
       | none => .err :=
   AsmComposeFor.assemble_meaning_for cfg sc fp U k hu hk hok hlex hfuel hv h63 hr hclosed hw ls hls hsame src hsrc
 
+open AsmComposeAll AsmComposeFor AsmComposeEqu AsmCompose AsmLine Render ExprProofs in
+/-- `assemble_meaning_all` — labels, EQUs AND FOR blocks in one program, from bytes: `p` has
+    labelled instructions, EQU lines, ORG/END, `;assert`, comment and blank lines at top level
+    (labels with or without a colon) and FOR blocks (sequential and nested, label-free bodies
+    whose operands may use counters, top-level labels and EQU names; counts literal, an
+    enclosing counter, or an EQU defined in front with a literal value; at most 12 expansions);
+    `ls` is any spacing of its words. `CompileWarrior` returns the reference meaning
+    `Spec.meaning` — FOR blocks unrolled by the reference, labels positioned after the unrolling,
+    EQUs substituted textually — or rejects exactly when the reference does. -/
+theorem assemble_meaning_all (cfg : Config) (sc : Spec.Cfg) (p : AProg) (U : List EItem) (k : Nat)
+    (d : String → Nat)
+    (hu : AUnroll [] p.items U k) (hk : k ≤ 12) (hblocks : BlocksOK p.items)
+    (hblex : ∀ c n body, AItem.block c n body ∈ p.items → (FProg.block c n body .nil).LexOK)
+    (hfuel : U.length + k + 2 < 100000)
+    (hv : cfg.validate = true) (h63 : cfg.coreSize.toNat < 2 ^ 63) (hr : CfgRel cfg sc)
+    (hlex : (p.unrolled U).LexOK) (hnames : (p.unrolled U).NamesOK)
+    (hplain : ∀ cs j, EItem.comment cs j ∈ (p.unrolled U).items → plainComment cs)
+    (hnd : ((p.unrolled U).labels ++ (p.unrolled U).equNames ++ constNames).Nodup)
+    (hcl : ∀ x ∈ (p.unrolled U).names,
+      x ∈ (p.unrolled U).labels ∨ x ∈ (p.unrolled U).equNames ∨ x ∈ constNames)
+    (hsmall : xinstrCount (p.unrolled U).xitems < 2 ^ 63)
+    (hrk : ERanked (xequs (p.unrolled U).xitems ++ Spec.predefined sc) d) (hlt : ∀ s, d s < 63)
+    (hw : XProgWF lexString sc (xtables sc (p.unrolled U).xitems) 0 (p.unrolled U).xitems)
+    (ls : List SrcLine) (hls : ∀ l ∈ ls, l.ok (some '\n') = true) (hsame : SameLines ls p.srcLines)
+    (src : List UInt8) (hsrc : decodeRunes src = renderLines ls) :
+    assemble cfg src =
+      match Spec.meaning sc p.toItems with
+      | some m => .ok (toWD (p.unrolled U).meta m)
+      | none => .err :=
+  AsmComposeAll.assemble_meaning_all cfg sc p U k d hu hk hblocks hblex hfuel hv h63 hr hlex hnames hplain
+    hnd hcl hsmall hrk hlt hw ls hls hsame src hsrc
+
 /-
-  Still open: one statement that has labels/EQUs AND FOR blocks in the SAME program
-  (`assemble_meaning_equ`: labels + EQU + asserts from bytes, any spacing, any mnemonic case;
-  `assemble_meaning_for`: label-free FOR blocks from bytes); comparison operators inside
-  operands; EQU names and END-line labels with a colon. The whole statement is checked by the asm94/asm88 domains
-  on 15 000 renderings per run.
+  Still open: block labels (the statement is FALSE there: finding F13) and labels / EQU / comment
+  lines INSIDE FOR bodies; comparison operators inside operands; EQU names and END-line labels with a
+  colon; upper-case `FOR`/`ROF` in the composed theorem (the stage theorems allow them). The whole
+  statement is checked by the asm94/asm88/for domains on 18 000 renderings per run.
 -/
 
 end Gmars.Props.C03
